@@ -26,6 +26,7 @@ RULE = (
     "batch labels with the proposed multiplicity, sampler label == id of the designated class; snapshots are byte-prefixes of "
     "later ones; the return value is the recorded pairs sorted by loss. Non-trivial = batch size >= 2 and ensemble >= 2 in "
     "the same run, or an extreme-loss history with a history-reading sampler; distinct by configuration hash."
+    " A tenth of the plain-model cases simulate as many periods as there are variables (4-6): a member's series is then a square array."
 )
 ASSUMPTIONS = [
     "a recomputed loss within 1e-12 relative of the recorded one counts as equal (BLAS summation order may depend on buffer alignment); counted as loss_ulp_wobble",
